@@ -12,7 +12,11 @@ from ..core import JobResult, job_seed
 
 TEXTS = ["", "hello", "Hello World", "MiXeD cAsE", "abc", "a", "UPPER", "lower", "x y  z", "  padded  ", "\tTab", "trail \t",
          "été", "日本語", "éa", "ß", "a-b_c", "aaa", "aaaa", "abcabc", "12", "007", "-5", "3.5", "1e3", "q.tar.gz",
-         "co,mma", "semi;colon", "ÀÉÎ", "Ωmega", "naïve café", "one two three", "x"]
+         "co,mma", "semi;colon", "ÀÉÎ", "Ωmega", "naïve café", "one two three", "x",
+         # padded with white space other than the blank and the tab: ideographic space, no-break space, em space, vertical tab,
+         # form feed, line ends
+         "\u3000wide\u3000", "\u00a0nbsp", "em\u2003\u2003", "\x0bvt\x0c", "\nline\r\n", " \u3000mixed\t\u00a0"]
+WS = " \t\n\r\x0b\x0c\u00a0\u2003\u3000"
 NUMS = ["0", "1", "2", "5", "7", "10", "16", "255", "1000", "65536", "123456789", "9223372036854775807", "9007199254740993",
         "4611686018427387905", "2.5", "0.5",
         "-3", "-2.5", "100"]
@@ -140,8 +144,7 @@ def gen_cases(rng, n):
         elif f == "length":
             add("%s(%s)" % (rng.choice(["length", "len"]), q(t)), ("text", str(len(t))), f)
         elif f in ("trim", "ltrim", "rtrim"):
-            ws = " \t"
-            exp = {"trim": t.strip(ws), "ltrim": t.lstrip(ws), "rtrim": t.rstrip(ws)}[f]
+            exp = {"trim": t.strip(WS), "ltrim": t.lstrip(WS), "rtrim": t.rstrip(WS)}[f]
             if not exp:
                 continue
             add("%s(%s)" % (f, q(t)), ("text", exp), f)
@@ -247,9 +250,9 @@ def gen_cases(rng, n):
             elif c == "same_call_twice":
                 add("concat(upper(%s), lower(%s), upper(%s))" % (q(t), q(t), q(t)), ("text", t.upper() + t.lower() + t.upper()) if "ß" not in t else ("any",), "compose")
             elif c == "len_trim":
-                if not t.strip(" \t"):
+                if not t.strip(WS):
                     continue
-                add("length(trim(%s))" % q(t), ("text", str(len(t.strip(" \t")))), "compose")
+                add("length(trim(%s))" % q(t), ("text", str(len(t.strip(WS)))), "compose")
             elif c == "hex_len":
                 add("hex(length(%s))" % q(t), ("text", "%x" % len(t)), "compose")
             elif c == "lower_concat":
@@ -437,7 +440,7 @@ def run_job(job):
             ("day(modified)", lambda n, st: str(model.local_naive(st.st_mtime, ctz).day)),
             ("dow(modified)", lambda n, st: str(model.local_naive(st.st_mtime, ctz).isoweekday() % 7 + 1)),
             ("coalesce(ext, name)", lambda n, st: model.ext_of(n) or n),
-            ("length(trim(name))", lambda n, st: str(len(n.strip(" \t")))),
+            ("length(trim(name))", lambda n, st: str(len(n.strip(WS)))),
             ("sqrt(size)", lambda n, st: ("num", math.sqrt(st.st_size))), ("abs(size - 1000)", lambda n, st: ("num", abs(st.st_size - 1000.0))),
         ]
         # zip members are entries too: a function of `name` is applied to the member's name column as printed
